@@ -210,6 +210,13 @@ def run(ctx):
                why=f"a transfer in {unit_lbl} can take more than the source holds (ratio > 1 gives negative amounts)",
                key=f"no sufficiency gate on unit branch {unit_lbl}")
 
+    # requested and available are measured alike (units engine): otherwise the gate compares apples with pears
+    from . import targets
+    from .. import uscan
+    sc = targets.scan(ctx, 'Container._transfer')
+    uscan.report_sinks(ctx, lambda cat: 'C03.R2' if cat in ('sum-mix', 'convert-from-unit', 'add-units', 'compare-units',
+                                                            'to-storage', 'storage-label') else None, sc)
+
     # ------------------------------------------------------------------ R3 sign of requests
     def sign_gate_on(state, pred_value, strict_ok=True):
         def g(c):
